@@ -53,8 +53,8 @@ def strategy(draw, tier="quick"):
     te = ["1/10", "1/5", "3/10", "2/5", "1/2", "7/10"]
     pool = te if kind == "none" and draw(st.booleans()) else dy
     for a in m["arcs"]:
-        # epsilon arcs stay small so that every epsilon closure converges (row sums of E <= 7/8)
-        a[3] = "1/8" if a[1] == "" else draw(st.sampled_from(pool))
+        # epsilon arcs stay small so that every epsilon closure converges (row sums of E <= 10/16)
+        a[3] = "1/16" if a[1] == "" else draw(st.sampled_from(pool))  # <= 10 epsilon arcs per state: row sums of E stay below 1
     for s in m["start"] + m["stop"]:
         s[1] = draw(st.sampled_from(pool + ["2"]))
     if len(m["states"]) >= 2 and draw(st.integers(0, 7)) == 0:
